@@ -135,8 +135,9 @@ func (c *c15callers) record(r string) {
 	c.returned.Add(1)
 }
 
-// c15caller runs one caller's calls in its own goroutine.
-func c15caller(c *c15callers, calls int, call func() string) {
+// c15caller runs one caller's calls in its own goroutine; all callers are released together.
+func c15caller(c *c15callers, start <-chan struct{}, calls int, call func() string) {
+	<-start
 	for i := 0; i < calls; i++ {
 		c.record(c15guard(call))
 	}
@@ -282,9 +283,14 @@ func c15conc(s *Sexp) string {
 	default:
 		return "bad-op"
 	}
+	start := make(chan struct{})
 	for i := 0; i < goroutines; i++ {
-		go c15caller(cs, callsEach, call)
+		go c15caller(cs, start, callsEach, call)
 	}
+	if !c15settle() { // every caller is parked at the start line (and a background execution at the gate)
+		return "NOQUIESCE start"
+	}
+	close(start)
 	phases := []string{}
 	for round := 0; ; round++ {
 		if !c15settle() {
